@@ -119,7 +119,8 @@ func tieFrame(c *Case, o Outcome) {
 	}
 	// the reservation the tied variant predicts must show in the measured allocation when the decoder
 	// failed in the very section that asks for it
-	if variantAsIs && rid >= 0 && rid == stopID && rid == lastID && last[rid] >= 1<<24 && vectorIDs[rid] && rid != 5 {
+	// (the table section checks `count > 1` against the reference-types feature before it allocates)
+	if variantAsIs && rid >= 0 && rid == stopID && rid == lastID && last[rid] >= 1<<24 && vectorIDs[rid] && rid != 5 && !(rid == 4 && c.Feat == "v1") {
 		rep.Count("frame-tie:huge-reservation-predicted")
 		if real.Alloc < last[rid] {
 			rep.Violate(hx.Violation{Kind: "correspondence", Signature: "C03:frame-model-asIs-predicts-reservation-not-observed",
